@@ -377,3 +377,58 @@ for _k, _spec in NORMALS.items():
                           must_have=[r"SURF_calc_normal.postcondition"], checks=["--bounds-check", "--pointer-check", "--signed-overflow-check"],
                           assumptions=["exact small-integer abstraction of real_type (complete for these degree-1 polynomial identities; floating-point rounding of the components not covered)", "make_unit_vector uninterpreted (normalisation itself not decided)"],
                           note=_spec[0][:-3] + "::calc_normal" + ("<%s>" % "xyz"[_ax] if _ax is not None else "") + ": the vector that is normalised is the gradient of the surface function, each component on its own global axis"))
+
+
+# ---------------------------------------------------------------------------
+# SurfaceSimplifier (host): an off-axis cylinder is only snapped onto the axis when BOTH offsets are within tolerance
+# ---------------------------------------------------------------------------
+SSI = "src/orange/surf/SurfaceSimplifier.cc"
+SSI_MODEL = """
+/* exact small-integer abstraction (VERIF_REAL_BITS = 8; offsets and tolerance in [-7, 7] so that the squares and their sum fit).  The property clause is a
+   NECESSARY condition of sense preservation: replacing CylAligned{u, v, r} by CylCentered{r} moves the surface by (u, v), so both |u| and |v| must be below the tolerance. */
+typedef struct { real_type origin_u_, origin_v_, radius_sq_; } CylAligned;
+typedef struct { real_type tol_; } SurfaceSimplifier;
+bool g_simplified;
+int nondet_int(void);
+/* std::hypot(a, b): some value r with max(|a|,|b|) <= r <= |a| + |b| (true of the exact function; its rounding is not decided) */
+static int HYPOT(int a, int b) { int r = nondet_int(); int aa = a < 0 ? -a : a, ab = b < 0 ? -b : b; __CPROVER_assume(r >= aa && r >= ab && r <= aa + ab); return r; }
+#define R7(x) ((x) >= -7 && (x) <= 7)
+#define ABS_(x) ((x) < 0 ? -(x) : (x))
+"""
+SSI_RULES = [
+    Rule(r"c\.origin_([uv])\(\)", r"c->origin_\1_", "*", note="accessor"),
+    Rule(r"c\.radius_sq\(\)", "c->radius_sq_", "*", note="accessor"),
+    Rule(r"ipow<2>\(([^()]*)\)", r"((\1) * (\1))", "*", note="ipow<2>(x) == x*x"),
+    Rule(r"std::hypot\(", "HYPOT(", "*", note="std::hypot -> bounded nondeterministic value (max(|a|,|b|) <= r <= |a|+|b|)"),
+    Rule(r"return CylCentered<T>::from_radius_sq\(c->radius_sq_\);", "{ g_simplified = 1; return; }", "*", note="returns the centred cylinder (same radius): recorded"),
+    Rule(r"return \{\};", "{ g_simplified = 0; return; }", "*", note="no simplification"),
+    Rule(r"(?<![\w.>])tol_\b", "self->tol_", "*", note="data member"),
+]
+
+
+def build_simplify_cyl(ctx):
+    pc = ctx.func(SSI, r"^auto SurfaceSimplifier::operator\(\)\(CylAligned<T> const& c\) const", SSI_RULES, name="SurfaceSimplifier::operator()(CylAligned<T>) (host)")
+    return (HDR + SSI_MODEL + """
+void SSI_cyl(SurfaceSimplifier const* self, CylAligned const* c)
+__CPROVER_requires(self != 0 && c != 0 && R7(c->origin_u_) && R7(c->origin_v_) && self->tol_ > 0 && self->tol_ <= 7)
+__CPROVER_assigns(g_simplified)
+/* snapped onto the axis only if the axis is within the tolerance in BOTH transverse directions */
+__CPROVER_ensures(g_simplified ==> (ABS_(c->origin_u_) < self->tol_ && ABS_(c->origin_v_) < self->tol_))
+/* and an exactly centred cylinder written as CylAligned is always recognised */
+__CPROVER_ensures((c->origin_u_ == 0 && c->origin_v_ == 0) ==> g_simplified)
+{""" + pc.body + """}
+void h_ssi(void)
+{
+    SurfaceSimplifier s; CylAligned c;
+    SSI_cyl(&s, &c);
+    VERIF_CANARY();
+}
+""")
+
+
+UNITS += [
+    Unit("c12_simplify_cyl", build_simplify_cyl, "h_ssi", enforce="SSI_cyl", timeout=300, backend=["sat", "kissat", "cvc5"], defines=["VERIF_REAL_BITS=8"],
+         must_have=[r"SSI_cyl.postcondition"], checks=["--bounds-check", "--pointer-check"],
+         assumptions=["exact small-integer abstraction (offsets, tolerance in [-7,7]); a necessary condition of sense preservation, not the tolerance formula itself"],
+         note="SurfaceSimplifier::operator()(CylAligned<T>) (host): a cylinder is replaced by the centred one only when both transverse offsets are below the tolerance; a centred one is always recognised"),
+]
